@@ -17,9 +17,14 @@ impl Database {
         if let Some(tz) = self::global::get(name) {
             return Some(tz);
         }
+        // We map `UTC` to our special const `TimeZone::UTC` value, like the
+        // other time zone database implementations do.
+        if name.eq_ignore_ascii_case("UTC") {
+            return Some(TimeZone::UTC);
+        }
         // Check for the special `Etc/Unknown` value, which isn't in the
         // IANA time zone database.
-        if name == "Etc/Unknown" {
+        if name.eq_ignore_ascii_case("Etc/Unknown") {
             return Some(TimeZone::unknown());
         }
         let (canonical_name, tzif) = lookup(name)?;
